@@ -177,6 +177,17 @@ pub struct Prop {
     pub replay: Option<fn(&Value, &mut Stats, &Env) -> CaseResult>,
     /// write the choice vector to disk before each case so that an abort can be attributed
     pub breadcrumb: bool,
+    /// libFuzzer campaigns run in the thorough tier
+    pub fuzz: &'static [Fuzz],
+}
+
+pub struct Fuzz {
+    /// binary in harness/fuzz
+    pub target: &'static str,
+    /// the bytes are this property's choice vector (target `choice`) rather than program text
+    pub choice: bool,
+    pub runs: u64,
+    pub max_len: usize,
 }
 
 #[derive(Clone, Debug)]
@@ -681,6 +692,31 @@ pub fn parent_main(prop: &Prop, tier: Tier, seed: u64, exe: PathBuf) -> i32 {
         }
     }
 
+    // libFuzzer campaigns (thorough tier, only when the generated part is clean)
+    let mut fuzz_stats: Vec<Value> = vec![];
+    if tier == Tier::Thorough && failures.is_empty() && inconclusive.is_empty() {
+        let handles: Vec<_> = prop
+            .fuzz
+            .iter()
+            .map(|f| {
+                let id = prop.id;
+                std::thread::spawn(move || run_fuzz(id, f, seed))
+            })
+            .collect();
+        for h in handles {
+            match h.join() {
+                Ok(Ok((stat, crash))) => {
+                    fuzz_stats.push(stat);
+                    if let Some(c) = crash {
+                        failures.push(c);
+                    }
+                }
+                Ok(Err(e)) => inconclusive.push(e),
+                Err(_) => inconclusive.push("fuzz thread panicked".into()),
+            }
+        }
+    }
+
     // evidence
     let wall = t0.elapsed().as_secs_f64();
     let mut coverage = Map::new();
@@ -692,6 +728,11 @@ pub fn parent_main(prop: &Prop, tier: Tier, seed: u64, exe: PathBuf) -> i32 {
     coverage.insert("excluded".into(), json!(excluded));
     coverage.insert("known_finding_hits".into(), json!(known_hits));
     coverage.insert("shards".into(), json!(of));
+    if !fuzz_stats.is_empty() {
+        let execs: u64 = fuzz_stats.iter().map(|f| f["execs"].as_u64().unwrap_or(0)).sum();
+        coverage.insert("fuzz".into(), json!(fuzz_stats));
+        coverage.insert("fuzz_executions".into(), json!(execs));
+    }
     for (k, v) in &extra {
         coverage.insert(k.clone(), v.clone());
     }
@@ -824,4 +865,63 @@ pub fn noop_fixed(_: &Env, _: &mut Stats) -> CaseResult {
 }
 pub fn noop_case(_: &mut Src, _: &mut Stats, _: &Env) -> CaseResult {
     Ok(())
+}
+
+
+/// one libFuzzer campaign with a fixed number of runs on a fresh copy of the seed corpus
+fn run_fuzz(id: &'static str, f: &Fuzz, seed: u64) -> Result<(Value, Option<Value>), String> {
+    let name = if f.choice { format!("{}-{}", f.target, id) } else { f.target.to_string() };
+    let work = PathBuf::from(format!("{}/out/fuzz/{}-{}", VERIF, name, std::process::id()));
+    let _ = std::fs::remove_dir_all(&work);
+    let corpus = work.join("corpus");
+    let artifacts = work.join("artifacts");
+    std::fs::create_dir_all(&corpus).map_err(|e| e.to_string())?;
+    std::fs::create_dir_all(&artifacts).map_err(|e| e.to_string())?;
+    if !f.choice {
+        if let Ok(rd) = std::fs::read_dir(format!("{}/corpus/text", VERIF)) {
+            for e in rd.flatten() {
+                let _ = std::fs::copy(e.path(), corpus.join(e.file_name()));
+            }
+        }
+    }
+    let t0 = Instant::now();
+    let mut cmd = Command::new("cargo");
+    cmd.current_dir(format!("{}/harness", VERIF))
+        .args(["+nightly", "fuzz", "run", "--target-dir", &format!("{}/out/fuzz-target", VERIF), f.target, corpus.to_str().unwrap(), "--"])
+        .arg(format!("-runs={}", f.runs))
+        .arg(format!("-seed={}", (seed % 4_000_000_000).max(1)))
+        .arg(format!("-max_len={}", f.max_len))
+        .args(["-len_control=0", "-timeout=25", "-rss_limit_mb=6000", "-print_final_stats=1"])
+        .arg(format!("-artifact_prefix={}/", artifacts.display()))
+        .env("VH_FUZZ_PROP", id)
+        .stdin(Stdio::null())
+        .stdout(Stdio::piped())
+        .stderr(Stdio::piped());
+    if !f.choice {
+        cmd.arg(format!("-dict={}/corpus/expr.dict", VERIF));
+    }
+    let out = cmd.output().map_err(|e| format!("cannot start cargo fuzz: {}", e))?;
+    let log = String::from_utf8_lossy(&out.stderr).to_string();
+    let grab = |key: &str| -> u64 { log.lines().rev().find(|l| l.contains(key)).and_then(|l| l.split_whitespace().last().and_then(|x| x.parse().ok())).unwrap_or(0) };
+    let cov = log.lines().rev().find(|l| l.contains(" cov: ")).and_then(|l| l.split(" cov: ").nth(1)).and_then(|r| r.split_whitespace().next()).and_then(|x| x.parse::<u64>().ok()).unwrap_or(0);
+    let corp = std::fs::read_dir(&corpus).map(|d| d.count()).unwrap_or(0);
+    let execs = grab("stat::number_of_executed_units");
+    let stat = json!({"target": name, "execs": execs, "coverage_edges": cov, "corpus_files": corp, "runs_requested": f.runs, "wall_s": t0.elapsed().as_secs_f64()});
+    let mut crash = None;
+    let arts: Vec<PathBuf> = std::fs::read_dir(&artifacts).map(|d| d.flatten().map(|e| e.path()).collect()).unwrap_or_default();
+    if let Some(a) = arts.first() {
+        let bytes = std::fs::read(a).unwrap_or_default();
+        let why = log.lines().find(|l| l.contains("VIOLATION") || l.contains("panicked at") || l.contains("ERROR: ")).unwrap_or("crash").to_string();
+        let (case, choices) = if f.choice {
+            (Value::Null, json!(bytes.chunks_exact(4).map(|c| u32::from_le_bytes([c[0], c[1], c[2], c[3]])).collect::<Vec<u32>>()))
+        } else {
+            (json!({"input": String::from_utf8_lossy(&bytes)}), json!([]))
+        };
+        crash = Some(json!({"sig": format!("fuzz-crash:{}", name), "detail": format!("libFuzzer target {} crashed: {}", name, why), "case": case, "choices": choices}));
+    } else if !out.status.success() && execs == 0 {
+        let tail: String = log.lines().rev().take(8).collect::<Vec<_>>().join(" | ");
+        return Err(format!("fuzz target {} did not run: {}", name, tail));
+    }
+    let _ = std::fs::remove_dir_all(&work);
+    Ok((stat, crash))
 }
